@@ -169,11 +169,18 @@ Definition packet_rx_ok (s : socket) (p : packet) : Prop :=
   (r_ack_number (snd p) = Some (tcp_window_start s) /\
    s_state s <> Closed /\ s_state s <> SynSent /\ s_state s <> Listen).
 
+(* dispatch resets the socket when the interface no longer has the socket's local address *)
+Definition dispatch_resets (cx : ctx) (s : socket) : bool :=
+  match s_tuple s with
+  | Some t => negb (tu_local_addr t =? cx_addr cx)
+  | None => false
+  end.
+
 Lemma dispatch_spec cx s emit_ok s' res tags :
   rb_wf (s_rx_buffer s) -> 0 <= s_remote_win_shift s ->
   tcp_dispatch cx s emit_ok = Ok (s', res, tags) ->
-  (s' = tcp_reset s /\ res = DNothing) \/
-  (rxv_rest s' s /\ (s_state s' = s_state s \/ s_state s' = Closed) /\
+  (dispatch_resets cx s = true /\ s' = tcp_reset s /\ res = DNothing) \/
+  (dispatch_resets cx s = false /\ rxv_rest s' s /\ (s_state s' = s_state s \/ s_state s' = Closed) /\
    ((s_remote_last_ack s' = s_remote_last_ack s /\ s_remote_last_win s' = s_remote_last_win s) \/
     ((exists p, res = DSent p) /\
      ((s_remote_last_ack s' = None /\ s_state s = SynSent) \/
@@ -185,12 +192,12 @@ Lemma dispatch_spec cx s emit_ok s' res tags :
    | DNothing => True
    end).
 Proof.
-  intros Hwf Hsh H. unfold tcp_dispatch in H.
+  intros Hwf Hsh H. unfold tcp_dispatch in H. unfold dispatch_resets.
   destruct (s_tuple s) as [t|].
-  2:{ inversion H; subst. right. split; [unfold rxv_rest; repeat split; reflexivity|].
+  2:{ inversion H; subst. right. split; [reflexivity|]. split; [unfold rxv_rest; repeat split; reflexivity|].
       split; [left; reflexivity|]. split; [left; split; reflexivity | exact I]. }
-  destruct (negb (tu_local_addr t =? cx_addr cx)); [inversion H; subst; left; split; reflexivity|].
-  right.
+  destruct (negb (tu_local_addr t =? cx_addr cx)); [inversion H; subst; left; repeat split; reflexivity|].
+  right. split; [reflexivity|].
   apply obind_ok_inv in H. destruct H as ((s1 & t1) & H1 & H).
   apply obind_ok_inv in H. destruct H as (((s2 & go) & t2) & H2 & H).
   pose proof (dispatch_timers_frame _ _ _ _ H1) as F1.
